@@ -5,7 +5,7 @@
    the observation (code 0 = a backend is returned, 1..6 = the error, SubclusterName, backend id, RetryTime,
    IsCrossCluster, req.ErrCode) and the new balancer state.  mode ranges over WRR smooth, WLC smooth, sticky. *)
 From Coq Require Import List ZArith Bool.
-From Bfe Require Import lib.Val model.Swrr model.Wlc model.Sticky model.Gslb proofs.WlcProofs proofs.GslbProofs run.RunC03.
+From Bfe Require Import lib.Val model.Swrr model.Wlc model.Sticky model.Gslb proofs.SwrrProofs proofs.WlcProofs proofs.GslbProofs run.RunC03.
 Import ListNotations.
 Open Scope Z_scope.
 
@@ -65,3 +65,26 @@ Example C03_example :
   fst (balance (MWrr, 2, 1) subs 0 12345 0) = mkObs 0 [98] 7 2 1 0 /\
   fst (balance (MWrr, 2, 0) subs 0 12345 0) = mkObs 3 [97] (-1) 2 0 3.
 Proof. exact (conj eq_refl eq_refl). Qed.
+
+(* ---- slow start (input kind 9: one BalanceRR, Balance(WrrSmooth / WlcSmooth) with SetSlowStart, Update, SetAvail,
+   SetRestart and the clock seam).  ss_good is the invariant "elapsed, slowStartTime >= 0; outside a ramp weight =
+   target; target <= 0 implies weight <= 0"; it holds after Init and is preserved by every operation (C01 file) and
+   by Balance.  In every such state one Balance call returns -1 iff no backend is eligible after checkSlowStart, and
+   otherwise an available backend whose effective AND configured (target) weights are positive: a backend configured
+   with weight <= 0 is never returned, not even in the call that consumes its restart flag. *)
+Theorem C03_slowstart_never_nonpositive : forall wlc T l p l',
+  0 <= T -> Forall ss_good l -> pick2 (bal_of wlc) T l = (p, l') ->
+  Forall ss_good l' /\
+  ((p = -1 /\ filter elig (map fst (check_ss T l)) = []) \/
+   (exists x, In x (check_ss T l) /\ b_id (fst x) = p /\ sb_ok x = true)).
+Proof. exact (fun wlc T l p l' => pick2_spec (bal_of wlc) T l p l' (bal_of_ok wlc)). Qed.
+Print Assumptions C03_slowstart_never_nonpositive.
+
+(* Central statement: wf_C03 (executable: the input decodes as a BalanceGslb history and the sub-cluster names are
+   pairwise distinct) and kf_C03 = 0 imply that the model's own run satisfies the predicate the harness evaluates on
+   the implementation.  (Kind 9 slow-start inputs are covered by C03_slowstart_never_nonpositive instead.) *)
+Theorem C03_central : forall i, wf_C03 i = true -> kf_C03 i = 0 -> prop_C03 i (run_C03 i) = true.
+Proof. exact central_C03. Qed.
+Print Assumptions C03_central.
+Example C03_central_nonvacuous : wf_C03 sample_C03 = true.
+Proof. exact sample_C03_wf. Qed.
